@@ -4,6 +4,7 @@
 (*      lines_in, lines_fg, lines_nofg : Seq(Text), out_fg, out_nofg : outcome, valid, conforming, ec]        *)
 EXTENDS GroupFinder, Json, IOUtils
 INSTANCE Er7
+V == INSTANCE Validate
 Events == ndJsonDeserialize(IOEnv.EVENTS)
 VARIABLES l, nontriv, failed
 vars == <<l, nontriv, failed>>
@@ -40,7 +41,10 @@ GroupVerdict(e) ==
   ELSE IF ~Sound(s, rows) THEN "element_is_not_a_declared_child_of_its_parent"
   ELSE IF e.out_nofg = "ok" /\ e.lines_fg # e.lines_nofg THEN "encoding_differs_with_and_without_group_finding"
   ELSE IF Unambiguous(s, e.input) /\ rows # Prescribed(s, e.input) THEN "tree_is_not_the_prescribed_one"
-  ELSE IF e.conforming /\ Unambiguous(s, e.input) /\ ~e.valid THEN "conforming_instance_does_not_validate"
+  \* when the prescribed forest satisfies every cardinality of the structure, the validator must find no structural error
+  ELSE IF Unambiguous(s, e.input) /\ ~e.valid
+          /\ V!StructErrors(s, [i \in 1..Len(rows) |-> [name |-> rows[i].name, kind |-> rows[i].kind, par |-> rows[i].par, z |-> FALSE]], e.msgname) = {}
+       THEN "conforming_instance_does_not_validate"
   ELSE "ok"
 Verdict(e) == IF e.want = "C03" THEN LossVerdict(e) ELSE GroupVerdict(e)
 Premise(e) == IF e.want = "C03" THEN TRUE ELSE Declared(S(e), e.input)
